@@ -1,4 +1,6 @@
-/- Helper lemmas for the bridge model (C01, C15). Not property theorems. -/
+/- Helper lemmas for the bridge model (C01, C13, C15): list arithmetic, exact case analyses of every
+   atomic step, the op language `Op` / `run`, and the lifting of step-wise relations through the
+   end-block composite.  Not property theorems. -/
 import PalomaModel.Model.Bridge
 
 namespace Paloma.Bridge
@@ -144,5 +146,445 @@ theorem filter_id_perm (l : List Tx) (t : Tx) (ht : t ∈ l) (hnd : (l.map (·.i
     · have hne : x.id ≠ t.id := fun e => hnd'.1 (List.mem_map.mpr ⟨t, hmem, e.symm⟩)
       simp only [bne_iff_ne, ne_eq, hne, not_false_eq_true, if_true]
       exact (Perm.cons x (ih hmem hnd'.2)).trans (Perm.swap t x _)
+
+/-! ### exact case analysis of the atomic steps: "not ok and nothing changed" or "ok and the effect" -/
+
+theorem send_cases (s : St) (f : Fault) (u tok amt h : Nat) :
+    ((send s f u tok amt h).2.2 = .rejected ∧ (send s f u tok amt h).1 = s) ∨
+    ((send s f u tok amt h).2.2 = .ok ∧ ∃ usage', limitStep (s.limit tok) (s.usage tok) u amt h = some usage' ∧
+      taxOverflows (s.tax tok) u amt = false ∧ amt + taxOf (s.tax tok) u amt < maxInt ∧ amt ≠ 0 ∧
+      amt + taxOf (s.tax tok) u amt ≤ s.bal u tok ∧ (send s f u tok amt h).1 = sendOk s u tok amt usage') := by
+  unfold send
+  split
+  · exact Or.inl ⟨rfl, rfl⟩
+  · rename_i usage' hl
+    split
+    · exact Or.inl ⟨rfl, rfl⟩
+    · rename_i hov
+      split
+      · exact Or.inl ⟨rfl, rfl⟩
+      · rename_i hmax
+        split
+        · exact Or.inl ⟨rfl, rfl⟩
+        · split
+          · exact Or.inl ⟨rfl, rfl⟩
+          · rename_i hz
+            split
+            · exact Or.inl ⟨rfl, rfl⟩
+            · rename_i hbal
+              split
+              · exact Or.inl ⟨rfl, rfl⟩
+              · exact Or.inr ⟨rfl, usage', hl, by simpa using hov, by omega, hz, by omega, rfl⟩
+
+theorem cancel_cases (s : St) (f : Fault) (u id : Nat) :
+    ((cancel s f u id).2.2 = .rejected ∧ (cancel s f u id).1 = s) ∨
+    ((cancel s f u id).2.2 = .ok ∧ ∃ t, findTx s.pool id = some t ∧ t.sender = u ∧
+      (cancel s f u id).1 = cancelOk s t) := by
+  unfold cancel
+  split
+  · exact Or.inl ⟨rfl, rfl⟩
+  · split
+    · exact Or.inl ⟨rfl, rfl⟩
+    · rename_i t hfind
+      split
+      · exact Or.inl ⟨rfl, rfl⟩
+      · rename_i hs
+        split
+        · exact Or.inl ⟨rfl, rfl⟩
+        · split
+          · exact Or.inl ⟨rfl, rfl⟩
+          · exact Or.inr ⟨rfl, t, hfind, by simpa using hs, rfl⟩
+
+theorem buildOne_cases (s : St) (f : Fault) (tok time : Nat) :
+    ((buildOne s f tok time).2.2 ≠ .ok ∧ (buildOne s f tok time).1 = s) ∨
+    ((buildOne s f tok time).2.2 = .ok ∧ (selectedFor s tok).isEmpty = false ∧
+      (buildOne s f tok time).1 = buildOk s tok time) := by
+  unfold buildOne
+  split
+  · exact Or.inl ⟨by simp, rfl⟩
+  · rename_i hsel
+    split
+    · exact Or.inl ⟨by simp, rfl⟩
+    · split
+      · exact Or.inl ⟨by simp, rfl⟩
+      · split
+        · exact Or.inl ⟨by simp, rfl⟩
+        · exact Or.inr ⟨rfl, by simpa using hsel, rfl⟩
+
+theorem cancelBatch_cases (s : St) (f : Fault) (tok nonce : Nat) :
+    ((cancelBatch s f tok nonce).2.2 = .rejected ∧ (cancelBatch s f tok nonce).1 = s) ∨
+    ((cancelBatch s f tok nonce).2.2 = .ok ∧ ∃ b, findBatch s.batches tok nonce = some b ∧
+      (cancelBatch s f tok nonce).1 = cancelBatchOk s b) := by
+  unfold cancelBatch
+  split
+  · exact Or.inl ⟨rfl, rfl⟩
+  · rename_i b hfind
+    split
+    · exact Or.inl ⟨rfl, rfl⟩
+    · exact Or.inr ⟨rfl, b, hfind, rfl⟩
+
+theorem execBatch_cases (s : St) (f : Fault) (tok nonce eh : Nat) :
+    ((execBatch s f tok nonce eh).2.2 = .rejected ∧ (execBatch s f tok nonce eh).1 = s) ∨
+    ((execBatch s f tok nonce eh).2.2 = .ok ∧ ∃ b, findBatch s.batches tok nonce = some b ∧ eh < b.timeout ∧
+      (b.txs.map Tx.owed).sum ≤ s.escrow b.token ∧ (b.txs.map Tx.owed).sum ≤ s.supply b.token ∧
+      (execBatch s f tok nonce eh).1 = execOk s b) := by
+  unfold execBatch
+  split
+  · exact Or.inl ⟨rfl, rfl⟩
+  · rename_i b hfind
+    split
+    · exact Or.inl ⟨rfl, rfl⟩
+    · rename_i hto
+      split
+      · exact Or.inl ⟨rfl, rfl⟩
+      · split
+        · exact Or.inl ⟨rfl, rfl⟩
+        · rename_i hguard
+          simp only [Bool.or_eq_true, decide_eq_true_eq, not_or, Nat.not_lt] at hguard
+          exact Or.inr ⟨rfl, b, hfind, by omega, hguard.1, hguard.2, rfl⟩
+
+theorem depositToPool_cases (s : St) (f : Fault) (tok amt : Nat) :
+    ((depositToPool s f tok amt).2.2 = .rejected ∧ (depositToPool s f tok amt).1 = s) ∨
+    ((depositToPool s f tok amt).2.2 = .ok ∧ (depositToPool s f tok amt).1 = depositOk s communityPool tok amt) := by
+  unfold depositToPool
+  split
+  · exact Or.inl ⟨rfl, rfl⟩
+  · exact Or.inr ⟨rfl, rfl⟩
+
+theorem deposit_cases (s : St) (f : Fault) (tok amt : Nat) (r : Option Nat) (k : Bool) :
+    ((deposit s f tok amt r k).2.2 = .rejected ∧ (deposit s f tok amt r k).1 = s) ∨
+    ((deposit s f tok amt r k).2.2 = .ok ∧ k = true ∧ ∃ who, (who = communityPool ∨ r = some who) ∧
+      (deposit s f tok amt r k).1 = depositOk s who tok amt) := by
+  unfold deposit
+  split
+  · exact Or.inl ⟨rfl, rfl⟩
+  · rename_i hk
+    have hk' : k = true := by simpa using hk
+    split
+    · exact Or.inl ⟨rfl, rfl⟩
+    · split
+      · rcases depositToPool_cases s (f.tick tMint).1 tok amt with h | h
+        · exact Or.inl h
+        · exact Or.inr ⟨h.1, hk', communityPool, Or.inl rfl, h.2⟩
+      · rename_i who
+        split
+        · rcases depositToPool_cases s (((f.tick tMint).1).tick tSend).1 tok amt with h | h
+          · exact Or.inl h
+          · exact Or.inr ⟨h.1, hk', communityPool, Or.inl rfl, h.2⟩
+        · exact Or.inr ⟨rfl, hk', who, Or.inr rfl, rfl⟩
+
+theorem setEstimate_cases (s : St) (f : Fault) (tok nonce est : Nat) :
+    ((setEstimate s f tok nonce est).2.2 = .rejected ∧ (setEstimate s f tok nonce est).1 = s) ∨
+    ((setEstimate s f tok nonce est).2.2 = .ok ∧ ∃ b, findBatch s.batches tok nonce = some b ∧ b.estimate = 0 ∧
+      (setEstimate s f tok nonce est).1 = estimateOk s tok nonce est) := by
+  unfold setEstimate
+  split
+  · exact Or.inl ⟨rfl, rfl⟩
+  · rename_i b hfind
+    split
+    · exact Or.inl ⟨rfl, rfl⟩
+    · rename_i hest
+      split
+      · exact Or.inl ⟨rfl, rfl⟩
+      · exact Or.inr ⟨rfl, b, hfind, by omega, rfl⟩
+
+theorem applyClaim_cases (s : St) (f : Fault) (c : Claim) :
+    ((applyClaim s f c).2.2 = .rejected ∧ (applyClaim s f c).1 = s) ∨
+    ((applyClaim s f c).2.2 = .ok ∧
+      ((∃ tok nonce eh b, c = .executed tok nonce eh ∧ findBatch s.batches tok nonce = some b ∧ eh < b.timeout ∧
+          (b.txs.map Tx.owed).sum ≤ s.escrow b.token ∧ (b.txs.map Tx.owed).sum ≤ s.supply b.token ∧
+          (applyClaim s f c).1 = execOk s b) ∨
+       (∃ tok amt r who, c = .deposit tok amt r true ∧ (who = communityPool ∨ r = some who) ∧
+          (applyClaim s f c).1 = depositOk s who tok amt))) := by
+  cases c with
+  | executed tok nonce eh =>
+    rcases execBatch_cases s f tok nonce eh with h | ⟨h1, b, h2, h3, h4, h5, h6⟩
+    · exact Or.inl h
+    · exact Or.inr ⟨h1, Or.inl ⟨tok, nonce, eh, b, rfl, h2, h3, h4, h5, h6⟩⟩
+  | deposit tok amt r k =>
+    rcases deposit_cases s f tok amt r k with h | ⟨h1, hk, who, h2, h3⟩
+    · exact Or.inl h
+    · subst hk
+      exact Or.inr ⟨h1, Or.inr ⟨tok, amt, r, who, rfl, h2, h3⟩⟩
+
+/-- the state after an observation: the handler's state with the observation logged -/
+theorem observe_state (s : St) (f : Fault) (n : Nat) (c : Claim) :
+    (observe s f n c).1 = { (applyClaim { s with lastObserved := n } f c).1 with
+      applied := (n, c, (observe s f n c).2.2) :: (applyClaim { s with lastObserved := n } f c).1.applied } := rfl
+
+theorem observe_res (s : St) (f : Fault) (n : Nat) (c : Claim) :
+    (observe s f n c).2.2 = (applyClaim { s with lastObserved := n } f c).2.2 := rfl
+
+/-! ### the op language: every operation the chain can perform on the bridge, each with its own fault -/
+
+inductive Op where
+  | send (f : Fault) (u tok amt h : Nat)
+  | cancel (f : Fault) (u id : Nat)
+  | build (f : Fault) (tok time : Nat)
+  | fund (u tok amt : Nat)
+  | setTax (tok : Nat) (c : Option TaxCfg)
+  | setLimit (tok : Nat) (c : Option LimitCfg)
+  | claim (n : Nat) (c : Claim)
+  | endBlock (f : Fault) (h now : Nat) (toks : List Nat) (ests : List (Nat × Nat × Nat))
+
+def apply (s : St) : Op → St
+  | .send f u tok amt h => (send s f u tok amt h).1
+  | .cancel f u id => (cancel s f u id).1
+  | .build f tok time => (buildOne s f tok time).1
+  | .fund u tok amt => fund s u tok amt
+  | .setTax tok c => setTax s tok c
+  | .setLimit tok c => setLimit s tok c
+  | .claim n c => addClaim s n c
+  | .endBlock f h now toks ests => (endBlock s f h now toks ests).1
+
+def run (ops : List Op) : St := ops.foldl apply St.init
+
+theorem run_append (a b : List Op) : run (a ++ b) = b.foldl apply (run a) := by
+  unfold run; rw [List.foldl_append]
+
+theorem run_snoc (a : List Op) (op : Op) : run (a ++ [op]) = apply (run a) op := by
+  rw [run_append]; rfl
+
+/-! ### lifting: a reflexive-transitive relation respected by every atomic step is respected by the
+    end-block composite and by every history -/
+
+/-- relations on (state, fault record): the general form, used when the fault sequence matters -/
+structure InnerRelF (R : St × Fault → St × Fault → Prop) : Prop where
+  refl : ∀ p, R p p
+  trans : ∀ {a b c}, R a b → R b c → R a c
+  build : ∀ s f tok time, R (s, f) ((buildOne s f tok time).1, (buildOne s f tok time).2.1)
+  cancelBatch : ∀ s f tok nonce, R (s, f) ((cancelBatch s f tok nonce).1, (cancelBatch s f tok nonce).2.1)
+  setEstimate : ∀ s f tok nonce est, R (s, f) ((setEstimate s f tok nonce est).1, (setEstimate s f tok nonce est).2.1)
+  /-- the tally only ever observes the stored claim at the next nonce -/
+  observe : ∀ s f n c, n = s.lastObserved + 1 → (n, c) ∈ s.claims → R (s, f) ((observe s f n c).1, (observe s f n c).2.1)
+  /-- a collaborator call made by the composite itself (the tally's event emission) -/
+  tick : ∀ s f t, R (s, f) (s, (f.tick t).1)
+
+namespace InnerRelF
+variable {R : St × Fault → St × Fault → Prop} (hR : InnerRelF R)
+include hR
+
+theorem createBatches (time : Nat) (toks : List Nat) : ∀ (s : St) (f : Fault),
+    R (s, f) ((createBatches s f time toks).1, (createBatches s f time toks).2.1) := by
+  induction toks with
+  | nil => intro s f; exact hR.refl _
+  | cons tok rest ih =>
+    intro s f
+    unfold Bridge.createBatches
+    simp only
+    split
+    · exact hR.build s f tok time
+    · exact hR.trans (hR.build s f tok time) (ih _ _)
+
+theorem tally (fuel : Nat) : ∀ (s : St) (f : Fault), R (s, f) ((tally s f fuel).1, (tally s f fuel).2.1) := by
+  induction fuel with
+  | zero => intro s f; exact hR.refl _
+  | succ k ih =>
+    intro s f
+    unfold Bridge.tally
+    split
+    · exact hR.refl _
+    · rename_i n c hfind
+      simp only
+      have hmem := List.mem_of_find?_eq_some hfind
+      have hn : n = s.lastObserved + 1 := by simpa using List.find?_some hfind
+      have h1 := hR.trans (hR.observe s f n c hn hmem) (hR.tick _ _ tChainInfo)
+      split
+      · exact h1
+      · exact hR.trans h1 (ih _ _)
+
+theorem applyEstimates (ests : List (Nat × Nat × Nat)) : ∀ (s : St) (f : Fault),
+    R (s, f) ((applyEstimates s f ests).1, (applyEstimates s f ests).2.1) := by
+  induction ests with
+  | nil => intro s f; exact hR.refl _
+  | cons e rest ih =>
+    intro s f
+    obtain ⟨tok, nonce, est⟩ := e
+    unfold Bridge.applyEstimates
+    simp only
+    exact hR.trans (hR.setEstimate s f tok nonce est) (ih _ _)
+
+theorem timeouts (now : Nat) (bs : List Batch) : ∀ (s : St) (f : Fault),
+    R (s, f) ((timeouts s f now bs).1, (timeouts s f now bs).2.1) := by
+  induction bs with
+  | nil => intro s f; exact hR.refl _
+  | cons b rest ih =>
+    intro s f
+    unfold Bridge.timeouts
+    split
+    · simp only
+      split
+      · exact hR.cancelBatch s f b.token b.nonce
+      · exact hR.trans (hR.cancelBatch s f b.token b.nonce) (ih _ _)
+    · exact ih _ _
+
+theorem endBlock (s : St) (f : Fault) (h now : Nat) (toks : List Nat) (ests : List (Nat × Nat × Nat)) :
+    R (s, f) ((endBlock s f h now toks ests).1, (endBlock s f h now toks ests).2.1) := by
+  unfold Bridge.endBlock
+  simp only
+  generalize hc : (if h % 50 == 0 then Bridge.createBatches s f now toks else (s, f, [])) = r1
+  have h1 : R (s, f) (r1.1, r1.2.1) := by
+    rw [← hc]
+    split
+    · exact hR.createBatches now toks s f
+    · exact hR.refl _
+  exact hR.trans (hR.trans (hR.trans h1 (hR.tally _ _ _)) (hR.applyEstimates _ _ _)) (hR.timeouts _ _ _ _)
+
+end InnerRelF
+
+/-- relations on states only -/
+structure InnerRel (R : St → St → Prop) : Prop where
+  refl : ∀ s, R s s
+  trans : ∀ {a b c}, R a b → R b c → R a c
+  build : ∀ s f tok time, R s (buildOne s f tok time).1
+  cancelBatch : ∀ s f tok nonce, R s (cancelBatch s f tok nonce).1
+  setEstimate : ∀ s f tok nonce est, R s (setEstimate s f tok nonce est).1
+  /-- the tally only ever observes the stored claim at the next nonce -/
+  observe : ∀ s f n c, n = s.lastObserved + 1 → (n, c) ∈ s.claims → R s (observe s f n c).1
+
+namespace InnerRel
+variable {R : St → St → Prop} (hR : InnerRel R)
+include hR
+
+theorem toF : InnerRelF (fun p q => R p.1 q.1) where
+  refl := fun p => hR.refl p.1
+  trans := fun h1 h2 => hR.trans h1 h2
+  build := hR.build
+  cancelBatch := hR.cancelBatch
+  setEstimate := hR.setEstimate
+  observe := hR.observe
+  tick := fun s _ _ => hR.refl s
+
+theorem createBatches (time : Nat) (toks : List Nat) (s : St) (f : Fault) : R s (createBatches s f time toks).1 :=
+  hR.toF.createBatches time toks s f
+theorem tally (fuel : Nat) (s : St) (f : Fault) : R s (tally s f fuel).1 := hR.toF.tally fuel s f
+theorem applyEstimates (ests : List (Nat × Nat × Nat)) (s : St) (f : Fault) : R s (applyEstimates s f ests).1 :=
+  hR.toF.applyEstimates ests s f
+theorem timeouts (now : Nat) (bs : List Batch) (s : St) (f : Fault) : R s (timeouts s f now bs).1 :=
+  hR.toF.timeouts now bs s f
+theorem endBlock (s : St) (f : Fault) (h now : Nat) (toks : List Nat) (ests : List (Nat × Nat × Nat)) :
+    R s (endBlock s f h now toks ests).1 := hR.toF.endBlock s f h now toks ests
+
+end InnerRel
+
+/-- an observable the keeper-level steps never write is unchanged by a whole end-block -/
+theorem InnerRel.ofFrame {α : Type} (π : St → α)
+    (hb : ∀ s tok time, π (buildOk s tok time) = π s)
+    (hcb : ∀ s b, π (cancelBatchOk s b) = π s)
+    (hest : ∀ s tok nonce est, π (estimateOk s tok nonce est) = π s)
+    (hexec : ∀ s b, π (execOk s b) = π s)
+    (hdep : ∀ s who tok amt, π (depositOk s who tok amt) = π s)
+    (hcur : ∀ (s : St) (n : Nat), π { s with lastObserved := n } = π s)
+    (hlog : ∀ (s : St) (e : Nat × Claim × Res), π { s with applied := e :: s.applied } = π s) :
+    InnerRel (fun s s' => π s' = π s) where
+  refl := fun _ => rfl
+  trans := fun h1 h2 => h2.trans h1
+  build := by
+    intro s f tok time
+    rcases buildOne_cases s f tok time with ⟨_, h⟩ | ⟨_, _, h⟩ <;> rw [h]
+    exact hb s tok time
+  cancelBatch := by
+    intro s f tok nonce
+    rcases cancelBatch_cases s f tok nonce with ⟨_, h⟩ | ⟨_, b, _, h⟩ <;> rw [h]
+    exact hcb s b
+  setEstimate := by
+    intro s f tok nonce est
+    rcases setEstimate_cases s f tok nonce est with ⟨_, h⟩ | ⟨_, b, _, _, h⟩ <;> rw [h]
+    exact hest s tok nonce est
+  observe := by
+    intro s f n c _ _
+    rw [observe_state, hlog]
+    rcases applyClaim_cases { s with lastObserved := n } f c with
+      ⟨_, h⟩ | ⟨_, ⟨tok, nonce, eh, b, _, _, _, _, _, h⟩ | ⟨tok, amt, r, who, _, _, h⟩⟩ <;> rw [h]
+    · exact hcur s n
+    · rw [hexec]; exact hcur s n
+    · rw [hdep]; exact hcur s n
+
+/-- generic: if `x` is in a list-valued observable after a history, either it was there at the start
+    or there is a first step at which it appeared -/
+theorem first_appearance {σ ο α : Type} (step : σ → ο → σ) (π : σ → List α) (x : α) (ops : List ο) :
+    ∀ s, x ∈ π (ops.foldl step s) → x ∈ π s ∨
+      ∃ pre op rest, ops = pre ++ op :: rest ∧ x ∉ π (pre.foldl step s) ∧ x ∈ π (step (pre.foldl step s) op) := by
+  induction ops with
+  | nil => intro s h; exact Or.inl h
+  | cons op rest ih =>
+    intro s h
+    rcases ih (step s op) h with h1 | ⟨pre, op', rest', he, hn, hm⟩
+    · by_cases h0 : x ∈ π s
+      · exact Or.inl h0
+      · exact Or.inr ⟨[], op, rest, rfl, h0, h1⟩
+    · exact Or.inr ⟨op :: pre, op', rest', by rw [he]; rfl, hn, hm⟩
+
+structure StepRel (R : St → St → Prop) : Prop extends InnerRel R where
+  send : ∀ s f u tok amt h, R s (send s f u tok amt h).1
+  cancel : ∀ s f u id, R s (cancel s f u id).1
+  fund : ∀ s u tok amt, R s (fund s u tok amt)
+  setTax : ∀ s tok c, R s (setTax s tok c)
+  setLimit : ∀ s tok c, R s (setLimit s tok c)
+  addClaim : ∀ s n c, R s (addClaim s n c)
+
+namespace StepRel
+variable {R : St → St → Prop} (hR : StepRel R)
+include hR
+
+theorem apply (s : St) (op : Op) : R s (apply s op) := by
+  cases op with
+  | send f u tok amt h => exact hR.send s f u tok amt h
+  | cancel f u id => exact hR.cancel s f u id
+  | build f tok time => exact hR.build s f tok time
+  | fund u tok amt => exact hR.fund s u tok amt
+  | setTax tok c => exact hR.setTax s tok c
+  | setLimit tok c => exact hR.setLimit s tok c
+  | claim n c => exact hR.addClaim s n c
+  | endBlock f h now toks ests => exact hR.toInnerRel.endBlock s f h now toks ests
+
+theorem foldl (ops : List Op) : ∀ s, R s (ops.foldl Bridge.apply s) := by
+  induction ops with
+  | nil => intro s; exact hR.refl s
+  | cons op rest ih => intro s; exact hR.trans (hR.apply s op) (ih _)
+
+end StepRel
+
+/-- an observable no bridge operation writes is unchanged by every history -/
+theorem StepRel.ofFrame {α : Type} (π : St → α) (inner : InnerRel (fun s s' => π s' = π s))
+    (hsend : ∀ s u tok amt us, π (sendOk s u tok amt us) = π s)
+    (hcancel : ∀ s t, π (cancelOk s t) = π s)
+    (hfund : ∀ s u tok amt, π (Bridge.fund s u tok amt) = π s)
+    (htax : ∀ s tok c, π (Bridge.setTax s tok c) = π s)
+    (hlim : ∀ s tok c, π (Bridge.setLimit s tok c) = π s)
+    (hclaim : ∀ s n c, π (Bridge.addClaim s n c) = π s) : StepRel (fun s s' => π s' = π s) where
+  toInnerRel := inner
+  send := by
+    intro s f u tok amt h
+    rcases send_cases s f u tok amt h with ⟨_, h1⟩ | ⟨_, usage', _, _, _, _, _, h1⟩ <;> rw [h1]
+    exact hsend s u tok amt usage'
+  cancel := by
+    intro s f u id
+    rcases cancel_cases s f u id with ⟨_, h1⟩ | ⟨_, t, _, _, h1⟩ <;> rw [h1]
+    exact hcancel s t
+  fund := hfund
+  setTax := htax
+  setLimit := hlim
+  addClaim := hclaim
+
+theorem setTax_other (s : St) (tok : Nat) (c : Option TaxCfg) :
+    (setTax s tok c).pool = s.pool ∧ (setTax s tok c).batches = s.batches ∧ (setTax s tok c).archive = s.archive ∧
+    (setTax s tok c).keys = s.keys ∧ (setTax s tok c).jailed = s.jailed ∧ (setTax s tok c).usage = s.usage ∧
+    (setTax s tok c).limit = s.limit ∧ (setTax s tok c).accepted = s.accepted ∧ (setTax s tok c).lastTx = s.lastTx := by
+  unfold setTax
+  split
+  · exact ⟨rfl, rfl, rfl, rfl, rfl, rfl, rfl, rfl, rfl⟩
+  · split <;> exact ⟨rfl, rfl, rfl, rfl, rfl, rfl, rfl, rfl, rfl⟩
+
+theorem addClaim_other (s : St) (n : Nat) (c : Claim) :
+    (addClaim s n c).pool = s.pool ∧ (addClaim s n c).batches = s.batches ∧ (addClaim s n c).archive = s.archive ∧
+    (addClaim s n c).keys = s.keys ∧ (addClaim s n c).jailed = s.jailed ∧ (addClaim s n c).usage = s.usage ∧
+    (addClaim s n c).limit = s.limit ∧ (addClaim s n c).tax = s.tax ∧ (addClaim s n c).accepted = s.accepted ∧
+    (addClaim s n c).lastTx = s.lastTx := by
+  unfold addClaim
+  split <;> exact ⟨rfl, rfl, rfl, rfl, rfl, rfl, rfl, rfl, rfl, rfl⟩
+
+/-- "an invariant is preserved" is a reflexive-transitive relation -/
+def Preserves (P : St → Prop) (s s' : St) : Prop := P s → P s'
 
 end Paloma.Bridge
